@@ -126,6 +126,11 @@ def main():
         record(events, errors, Q.ternary(alpha=alpha, threshold=thr), meta, n, x, ak == "none")
         record(events, errors, Q.ternary(alpha=alpha, threshold=thr), dict(meta, g=999), None, free_data(rnd, shape),
                ak == "none")
+        if ak in ("auto", "auto_po2"):
+          # an iteration cut short (1 or 2 unrolls): the exposed scale is still the least-squares optimum of the codes
+          # that are emitted, whatever threshold the iteration stopped at
+          for u in (1, 2):
+            record(events, errors, Q.ternary(alpha=alpha, number_of_unrolls=u), dict(meta, args={"number_of_unrolls": u}), n, x, False)
         # the stochastic classes at inference ARE binary / ternary (same codes, same scale)
         sbm = dict(meta, cls="binary", use01=0, args={"stochastic_class": 1})
         record(events, errors, Q.stochastic_binary(alpha=alpha), sbm, n, x, ak == "none")
